@@ -241,10 +241,15 @@ type Opts struct {
 func (o Opts) Ctx() context.Context {
 	ctx := context.Background()
 	if loc := zoneOf(o.Zone); loc != nil {
+		// derived from a context that carries another zone: the innermost setting wins
+		ctx = types.ContextWithTZ(ctx, outerZone)
 		ctx = types.ContextWithTZ(ctx, loc)
 	}
 	return ctx
 }
+
+// outerZone: a zone unlike any the checks use, set on the parent context of every zoned context.
+var outerZone = time.FixedZone("outer", 7*3600+1800)
 
 func zoneOf(z string) *time.Location {
 	switch z {
